@@ -106,7 +106,9 @@ struct map_fn
             for (sz i = 0; i != coords.size(); ++i) coords[i] = rn[i] * T(0.5) + T(0.25) * T(channel % 2);
             w.last_coords = coords;
             // the map may fill the densities already now ("can be calculated at this time point")
-            for (sz i = 0; i != dens.size(); ++i) dens[i] = T(1) + T(i) / T(4);
+            // (slots of disabled channels are marked with NaN: nobody may rely on them, and nobody may clean them up)
+            for (sz i = 0; i != dens.size(); ++i)
+                dens[i] = std::find(enabled.begin(), enabled.end(), i) == enabled.end() ? std::numeric_limits<T>::quiet_NaN() : T(1) + T(i) / T(4);
             w.last_dens = dens;
             e.coords = coords;
             w.log.push_back(e);
@@ -128,7 +130,8 @@ struct map_fn
 template <typename T>
 static std::vector<std::uint64_t> extremes()
 {
-    return {0, std::uint64_t(1) << 62, vf::raw_for<T>(std::nextafter(T(1), T(0)))};
+    // the last one is the largest raw output of the engine (the canonical number is then clamped below one)
+    return {0, std::uint64_t(1) << 62, ~std::uint64_t(0)};
 }
 
 struct cfg { int kind; int variant; };   // kind 0 plain, 1 vegas (variant 0 uniform, 1 non-uniform), 2 mc (variant = weight vector)
